@@ -86,7 +86,9 @@ class Tracer:
                     continue
                 for a in t["args"]:
                     v = self.value(a)
-                    if v.kind == "ref" and v.mut:
+                    if v.kind == "ref" and v.mut and "deref" not in v.place.p:
+                        # `&mut local...` : the local's own storage may be written.  A reborrow
+                        # `&mut *r` writes the referent of r, not r.
                         mw.setdefault(v.place.l, []).append((i, t))
             self._mw = mw
         return self._mw
